@@ -46,7 +46,7 @@ ASSUMPTIONS = [
     "the limiter's own debug switch is left off; MIN_INTER_WRITE_GAP, DUTY_CYCLE_DURATION, MAX_DUTY_CYCLE_RATE and MAX_TRANSMIT_RATE_TOKENS are the shipped constants",
     "tolerance 1 us on times, 1 bit on sums",
 ]
-REQUIRED = {"serial.scenarios_with_sync_cycles": 4, "serial.scenarios": 8, "serial.writes": 400, "serial.waited_for_bucket": 1, "serial.windows": 400, "mqtt.scenarios": 4, "mqtt.scenarios_with_status_flaps": 2, "mqtt.status_flaps": 10, "mqtt.publishes": 200, "mqtt.drops": 1}
+REQUIRED = {"serial.scenarios_with_restart": 3, "serial.scenarios_with_sync_cycles": 4, "serial.scenarios": 8, "serial.writes": 400, "serial.waited_for_bucket": 1, "serial.windows": 400, "mqtt.scenarios": 4, "mqtt.scenarios_with_status_flaps": 2, "mqtt.status_flaps": 10, "mqtt.publishes": 200, "mqtt.drops": 1}
 
 RATE, BUCKET, GAP = 38400 * 0.01, 38400 * 0.01 * 60, 0.05
 TOKENS, TOKEN_RATE = 80, 80 / 60
@@ -274,12 +274,31 @@ async def serial_scenario(loop: vloop.VirtualLoop, ctx, name: str, trial: int) -
         syncer = asyncio.ensure_future(sync_traffic())
         ctx.count("serial.scenarios_with_sync_cycles")
     await pattern(loop, rng, name, led, tr, uid, budget)
-    if rng.random() < 0.5:  # a second pattern on the same (now possibly indebted) bucket
+    writes = port.writes
+    if trial % 3 == 2:
+        # the gateway is stopped and started again (an integration reload, a port that dropped): same radio, a new
+        # transport - what it transmits is still one stream to the regulation
+        from .boundary import serial_patched
+
+        await asyncio.sleep(rng.choice((0.0, 0.2, 2.0)))
+        await gwy.stop()
+        port2 = air.swap_stick(port, "18:006402")
+        with serial_patched():
+            await gwy.start()
+        await asyncio.sleep(0.3)
+        gwy._vrf_port, tr = port2, gwy._transport
+        writes = list(port.writes) + port2.writes  # (one list: port2.writes is extended in place below)
+        ctx.count("serial.scenarios_with_restart")
+        await pattern(loop, rng, rng.choice(("back-to-back", "burst", name)), led, tr, uid, budget / 2)
+        writes = list(port.writes) + list(port2.writes)
+    elif rng.random() < 0.5:  # a second pattern on the same (now possibly indebted) bucket
         await pattern(loop, rng, rng.choice(PATTERNS), led, tr, uid, budget / 2)
     await asyncio.sleep(5.0)
     if syncer is not None:
         syncer.cancel()
-    judge_serial(ctx, name, led, list(port.writes))
+    if trial % 3 == 2:
+        writes = list(port.writes) + list(gwy._vrf_port.writes)
+    judge_serial(ctx, name, led, list(writes))
     ctx.ev()
     ctx.count("serial.scenarios")
     if trial < 1:
